@@ -292,6 +292,9 @@ func (m Model) scalar(v Val, st *evState) Exp {
 		if v.Nil {
 			return null
 		}
+		if v.EK == "nilsafe" {
+			return strS(nilStrerText) // a nil pointer whose String method copes: String() is still what is logged
+		}
 		return str(v.S)
 	case "bytes":
 		e := str(v.S)
